@@ -40,7 +40,8 @@ def verify(prop, m):
     try:
         rc, out2 = sh(f"/venv/bin/python {d}/demo.py", wt)
         res["demo_mutant_fail"] = rc != 0 or "FAIL" in out2
-        rc, t = sh("/venv/bin/python -m pytest -q -rf -p no:cacheprovider --timeout=900 --continue-on-collection-errors", wt)
+        # a private MOLLI_HOME: several suites running at once disturb each other through the shared ~/.molli/scratch
+        rc, t = sh(f"MOLLI_HOME=/tmp/mh_{prop} /venv/bin/python -m pytest -q -rf -p no:cacheprovider --timeout=900 --continue-on-collection-errors", wt)
         last = t.strip().splitlines()[-1]
         bad = [l for l in t.splitlines() if l.startswith("FAILED") and not any(a in l for a in ALWAYS_FAIL)]
         import re
@@ -131,7 +132,7 @@ def refactor(tag, r, sid):
         res["equiv_same_digest"] = rc == 0 and dig(mut) == dig(base)
         ok = False
         for attempt in range(3):
-            rc, t = sh("/venv/bin/python -m pytest -q -rf -p no:cacheprovider --timeout=900 --continue-on-collection-errors", wt)
+            rc, t = sh(f"MOLLI_HOME=/tmp/mh_{tag} /venv/bin/python -m pytest -q -rf -p no:cacheprovider --timeout=900 --continue-on-collection-errors", wt)
             last = t.strip().splitlines()[-1]
             bad = [l for l in t.splitlines() if l.startswith("FAILED") and not any(a in l for a in ALWAYS_FAIL)]
             import re
